@@ -144,8 +144,9 @@ fn judge(ex: &mut Exec, c: &Case, cfg: &str, o: &Obs) -> Result<(), Violation> {
 fn gen_case(r: &mut Rng, big: bool) -> Case {
     // 1. the sub-hypergraph G
     let labels = r.range(1, 3);
-    let gn = r.range(0, if big { 5 } else { 4 });
-    let gm = if gn == 0 { r.below(2) } else { r.range(0, 3) };
+    let huge = r.chance(1, if big { 20 } else { 150 });
+    let gn = if huge { r.range(5, 16) } else { r.range(0, if big { 5 } else { 4 }) };
+    let gm = if gn == 0 { r.below(2) } else if huge { r.range(2, 10) } else { r.range(0, 3) };
     let side = |r: &mut Rng, n: usize| -> Vec<usize> {
         if n == 0 {
             vec![]
@@ -161,11 +162,11 @@ fn gen_case(r: &mut Rng, big: bool) -> Case {
     }
     // 2. the target H: G plus extra nodes and extra hyperedges over all nodes
     let mut h = g.clone();
-    for _ in 0..r.range(0, if big { 4 } else { 3 }) {
+    for _ in 0..(if huge { r.range(2, 16) } else { r.range(0, if big { 4 } else { 3 }) }) {
         h.w.push(r.below(labels) as L);
     }
     let hn = h.w.len();
-    for _ in 0..r.range(0, if big { 5 } else { 4 }) {
+    for _ in 0..(if huge { r.range(3, 14) } else { r.range(0, if big { 5 } else { 4 }) }) {
         let s = side(r, hn);
         let t = side(r, hn);
         h.e.push(edge(r.below(2) as L, s, t));
@@ -216,7 +217,7 @@ fn gen_case(r: &mut Rng, big: bool) -> Case {
 }
 
 fn corrupt(r: &mut Rng, c: &mut Case) {
-    let kind = r.below(9);
+    let kind = r.below(11);
     let done: Option<&str> = match kind {
         0 if c.g.n() > 0 => {
             let v = r.below(c.g.n());
@@ -298,6 +299,26 @@ fn corrupt(r: &mut Rng, c: &mut Case) {
                 let k = r.below(list.len());
                 list[k] = r.below(n);
                 Some("retarget one incidence entry of the target")
+            } else {
+                None
+            }
+        }
+        9 | 10 if c.g.m() >= 2 => {
+            // move one incidence entry across the boundary between two consecutive hyperedges of the
+            // source: the concatenated incidence stays the same, the arities change
+            let i = r.below(c.g.m() - 1);
+            let src = r.chance(1, 2);
+            let fwd = r.chance(1, 2);
+            let (a, b) = c.g.e.split_at_mut(i + 1);
+            let (la, lb) = if src { (&mut a[i].s, &mut b[0].s) } else { (&mut a[i].t, &mut b[0].t) };
+            if fwd && !la.is_empty() {
+                let v = la.pop().unwrap();
+                lb.insert(0, v);
+                Some("move an incidence entry to the next hyperedge of the source (cut point shifted)")
+            } else if !fwd && !lb.is_empty() {
+                let v = lb.remove(0);
+                la.push(v);
+                Some("move an incidence entry to the previous hyperedge of the source (cut point shifted)")
             } else {
                 None
             }
